@@ -1,8 +1,9 @@
 SPECIFICATION Spec
-CONSTANTS MaxBr = 2 MaxN = 4 MaxRuns = 2
-  Kinds <- KindsQuick
-  BufSizes <- BufQuick
+CONSTANTS MaxRuns = 2
+  Scenarios <- ScQuick
 INVARIANT OpEqDen
+INVARIANT InterBoth
+INVARIANT InterStateless
 INVARIANT AllActiveAtStart
 INVARIANT OutIsPrefix
 INVARIANT BufBound
